@@ -8,7 +8,7 @@ CFG = dict(
     model="C17",
     overlay=["sim", "c17"],
     required_theorems=["Props.C17.hash_range", "Props.C17.hash_reference_eq_java", "Props.C17.hash_consistent", "Props.C17.hash_key_range", "Props.C17.hash_key_consistent",
-                       "Props.C17.rr_run_range", "Props.C17.rr_cycle", "Props.C17.rr_covers_all", "Props.C17.rr_window_injective", "Props.C17.rr_periodic", "Props.C17.manual_identity",
+                       "Props.C17.rr_run_range", "Props.C17.rr_cycle", "Props.C17.rr_covers_all", "Props.C17.rr_window_injective", "Props.C17.rr_periodic", "Props.C17.rr_window_count", "Props.C17.rr_fair", "Props.C17.manual_identity",
                        "Props.C17.partition_message_spec", "Props.C17.failed_partitioning_sends_nothing",
                        "Props.C17.custom_fallback_used", "Props.C17.hash_partition_keyed", "Props.C17.hash_partition_keyless", "Props.C17.keyed_hash_message_routed",
                        "Bridge.C17.hashTail_eq", "Bridge.C17.rrPartition_eq", "Bridge.C17.routeCheck_ok", "Bridge.C17.routeCheck_err"],
